@@ -447,6 +447,7 @@ def run_property(pid, tier, seed):
         cov.update(extra(tier, cov))
 
     seen = set()
+    nonrepro = []
     for r in results:
         for f in r["failures"]:
             key = (f["failure"]["oracle"], case_hash(f["case"]))
@@ -460,15 +461,22 @@ def run_property(pid, tier, seed):
                 json.dump(dict(f["case"], _failure=f["failure"]), fh, indent=1, default=str)
             ok, outp = confirm_in_fresh_process(pid, path)
             if not ok:
-                print("HARNESS ERROR: failure does not reproduce in a fresh interpreter (state leak?)")
-                print("  replay=%s\n  %s: %s" % (path, f["failure"]["oracle"], f["failure"]["detail"][:500]))
-                print(outp[-2000:])
-                write_evidence(prop, tier, seed, cov, time.time() - t0, len(violations))
-                return 2
+                # kept apart: alone it means a harness problem (exit 2); next to confirmed violations it is a note
+                nonrepro.append((path, f, outp))
+                continue
             print("VIOLATION property=%s replay=%s" % (pid, path))
             print("  %s: %s" % (f["failure"]["oracle"], f["failure"]["detail"][:500]))
             violations.append(path)
 
+    for path, f, outp in nonrepro:
+        print("%s: a failure does not reproduce in a fresh interpreter (state leak?)" % (
+            "note" if violations else "HARNESS ERROR"))
+        print("  replay=%s\n  %s: %s" % (path, f["failure"]["oracle"], f["failure"]["detail"][:500]))
+        if not violations:
+            print(outp[-2000:])
+    if nonrepro and not violations:
+        write_evidence(prop, tier, seed, cov, time.time() - t0, 0)
+        return 2
     if not cov["samples"]:
         cov["samples"] = [r["samples"][0] for r in results if r["samples"]][:1]
     path = write_evidence(prop, tier, seed, cov, time.time() - t0, len(violations))
